@@ -54,7 +54,14 @@ pub(crate) fn range_with_prefix<'a>(
 
     // make a copy for the closure to handle lifetimes safely
     let prefix = namespace.to_vec();
-    let mapped = base_iterator.map(move |(k, v)| (trim(&prefix, &k), v));
+    // the upper bound keeps the length of the namespace, so for a namespace ending with 255 bytes
+    // a few shorter foreign keys sort below it (e.g. [1] < [1, 0, 0] for [0, 255, 255]): skip them
+    let mapped = base_iterator
+        .filter({
+            let prefix = prefix.clone();
+            move |(k, _)| k.starts_with(&prefix)
+        })
+        .map(move |(k, v)| (trim(&prefix, &k), v));
     Box::new(mapped)
 }
 
